@@ -9,7 +9,7 @@ use zvcore::refcodec as rc;
 use zvcore::world::{self, Chunk, WMode};
 
 /// 0 Close: end-of-stream towards the socket, writes to the peer fail from then on
-/// 1 Reset: read error (connection reset), writes fail
+/// 1 Reset: read error (connection reset), writes fail with ConnectionReset (not BrokenPipe)
 /// 2 WriteFail: nothing to read any more, the next library write fails
 #[derive(Clone, Debug)]
 pub struct Params {
@@ -113,7 +113,8 @@ pub fn scenario(pr: &Params) -> Verdict {
         // let the cut happen (everything the victim will ever send has been delivered, the fault too)
         world::idle().await;
         // from now on the victim's connection does not accept writes
-        world::set_wmode(victim.from_lib, WMode::Fail(std::io::ErrorKind::BrokenPipe));
+        // (after a reset the kernel answers writes with ECONNRESET, after an orderly close with EPIPE)
+        world::set_wmode(victim.from_lib, WMode::Fail(if fault == 1 { std::io::ErrorKind::ConnectionReset } else { std::io::ErrorKind::BrokenPipe }));
         let phase = |label: &str| world::log(format!("-- {}", label));
         phase("recv until idle");
         if ty.can_recv() && ty != Ty::Req {
@@ -386,8 +387,8 @@ pub fn jobs(tier: Tier) -> Vec<Job> {
                     }
                     let pr = Params { ty, cut, fault, live_first, policy: 0 };
                     let pr2 = pr.clone();
-                    let bound = if cut >= hs_len { tier.pick(1, 2) } else { tier.pick(0, 1) };
-                    jobs.push(e3::job(format!("C16/{}/cut{}/fault{}/{}", ty.name(), cut, fault, live_first), pj(&pr), bound, tier.pick(3_000, 60_000), move || scenario(&pr2)));
+                    let bound = if cut >= hs_len { tier.pick(2, 3) } else { tier.pick(1, 2) };
+                    jobs.push(e3::job(format!("C16/{}/cut{}/fault{}/{}", ty.name(), cut, fault, live_first), pj(&pr), bound, tier.pick(30_000, 400_000), move || scenario(&pr2)));
                 }
             }
         }
